@@ -164,6 +164,13 @@ def rule_c(prog, rep):
             rep.proved("R-C15-c", fi.fq, "running maximum over (value, count) pairs in from_array", "common := value whenever its count exceeds the best so far; best := that count")
             # the dict iterated holds every distinct value with its count: counts (or mapped counts)
             srcs = tm.alts(d)
+            M = tm.param("mapping")
+            for sdict in srcs:
+                if sdict.op == "comp" and sdict.args[0] == "dict" and sdict.args[1].op == "tuple" and len(sdict.args[1].args) == 2 \
+                        and tm.contains(sdict.args[1].args[0], lambda x: x.op == "sub" and M in tm.alts(x.args[0])):
+                    rep.violated("R-C15-c", fi.fq, "counts of the mapped values",
+                                 "the counts are re-keyed with a dict comprehension {mapping[v]: c ...}: when the mapping merges several present values only the last one's count survives, so the arg-max can pick a value that is not the most frequent one",
+                                 witness={"inputs": "0 x4, 1 x3, 2 x3 with mapping {0: 0, 1: 5, 2: 5}: 0 (4) is chosen over 5 (6)"})
             okd = all(tm.contains(s, lambda x: x == tm.param("counts") or (x.op == "call" and tm.callee_name(x) in ("numpy.bincount", "numpy.unique", "collections.defaultdict"))) for s in srcs)
             rep.check(okd, "R-C15-c", fi.fq, "the selection ranges over the counts of all distinct values", "", "iterates %s" % tm.show(d)[:80])
     if not found:
